@@ -637,6 +637,12 @@ func patternsC15(c *Ctx) {
 			}
 		}
 		stars(capt)
+		// (h) a greedy any-character run in front of the password runs to the last `=` of the line
+		for i, el := range seq {
+			if (el.Op == syntax.OpStar || el.Op == syntax.OpPlus) && (el.Sub[0].Op == syntax.OpAnyChar || el.Sub[0].Op == syntax.OpAnyCharNotNL) && el.Flags&syntax.NonGreedy == 0 && el != capt {
+				c.Bad("C15.patterns", fmt.Sprintf("%s: (h) greedy any-character run #%d before the password", gname, i), pos, "a greedy `.*` in front of the `=` takes the match to the last `=` of the line: in `set password for u = 'a=b'` the head of the password stays, and of two statements on one line the first password is left untouched while some later value is redacted")
+			}
+		}
 		// (f) what lies between the keywords and `=` must admit a quoted name containing `=`
 		for i, el := range seq {
 			if (el.Op == syntax.OpStar || el.Op == syntax.OpPlus) && el.Sub[0].Op == syntax.OpCharClass && !classHas(el.Sub[0], '=') && classHas(el.Sub[0], 'a') {
